@@ -64,6 +64,13 @@ def encode(classes, cart):
                 out.append(ctx.memo[key])
             else:
                 out.append(Lg([(Fr(1), (Z + M) * rho.recip())]))
+    # the callee's postcondition  view(result) == cart  travels with the coordinates
+    from .views import vkey, SHORT
+    cache = ctx.__dict__.setdefault("viewcache", {})
+    if classes[0] is AzimuthalRhoPhi:
+        cache[("az", vkey(out[0]), vkey(out[1]))] = (X, Y)
+    if len(classes) >= 2 and classes[1] is not LongitudinalZ:
+        cache[("lo", SHORT[classes[0]], SHORT[classes[1]], vkey(out[0]), vkey(out[1]), vkey(out[2]))] = A.of(cart[2])
     if len(classes) >= 3:
         T = A.of(cart[3])
         if classes[2] is TemporalT:
